@@ -218,3 +218,7 @@ for _k, _n in ((OPT + 'register:RegisterOperand.parse_operand', 'register'),
              may_raise={'SystemExit': 'True', 'SyntaxError': 'True', 'KeyError': 'True', 'AttributeError': 'True',
                         'ValueError': 'True'},
              ensures=[KEEPS_TEXT], modifies=[], allocates=True, no_frame_check=True)
+
+# the text @ARG(n) stands for is the argument expression exactly as written (only surrounding blanks removed)
+contract('bespokeasm.assembler.bytecode.parts:ExpressionByteCodePart.instruction_string', name='arg-text-as-written',
+         props=['C10'], ensures=['result == str_strip(self._expression)'], modifies=[])
